@@ -479,3 +479,36 @@ func Harness_C14_armor_junk() {
 	_, e2 := r.Read(make([]byte, 1))
 	V.Assert(e2 != nil && e2 != io.EOF, "a failed armor reader does not keep failing")
 }
+
+// Harness_C08_padded_full_line: a full 64-column body line whose last three
+// characters are arbitrary (padding '=' included), followed by 0..1 further
+// body lines of 4 or 64 columns and the END line: whatever is accepted is the
+// canonical armor of its content (in particular a padded line is the last one).
+func Harness_C08_padded_full_line() {
+	text := []byte(Header + "\n")
+	l := bytes.Repeat([]byte("A"), 61)
+	tail := V.Bytes("tail", 3)
+	for _, c := range tail {
+		V.Assume(b64class[c])
+	}
+	l = append(l, tail...)
+	text = append(text, l...)
+	text = append(text, '\n')
+	switch V.Int("next", 0, 2) {
+	case 1:
+		text = append(text, "QUFB\n"...)
+	case 2:
+		text = append(text, bytes.Repeat([]byte("B"), 64)...)
+		text = append(text, '\n')
+	}
+	text = append(text, Footer+"\n"...)
+	content, err := io.ReadAll(NewReader(bytes.NewReader(text)))
+	if err != nil {
+		V.Reach("rejected")
+		var ae *Error
+		V.Assert(errors.As(err, &ae), "armor failure does not carry the armor error type")
+		return
+	}
+	V.Reach("accepted")
+	V.Assert(bytes.Equal(refArmor(content), text), "accepted text is not the canonical armor of its content (beyond CRLF / outer whitespace)")
+}
